@@ -14,16 +14,20 @@ COQ_SHARD = 100
 DESIGN_REF = "§5 C30"
 TECHNIQUE = ("C14's theorems instantiated with the row merger as collision handler + SQL-level correspondence: one dolt_merge over three tables "
              "with identical histories, one fast-path eligible and two forced onto the row path by a CHECK / a secondary index")
-LEVEL_TEXT = ("Proof (F/P): for every base/left/right the fast path's rows equal the row path's rows (rows_equal) and the recorded conflicts are "
-              "identical (conflicts_equal, for every handler), the conflict counter agrees (stats_conflicts_equal). The full statement about "
-              "statistics is refuted in the faithful model (stats_equal_refuted: the fast path never counts Adds/Deletes/Modifications) and on the "
-              "real code (known finding); stats_equal_partial states when they agree. Partial: relative to C14's range-patch abstraction; the "
-              "row merger is modelled for two nullable int cells and identical schemas.")
+LEVEL_TEXT = ("Proof (F/P): for every base/left/right the fast path's rows equal the row path's rows (rows_equal - no hypothesis left: the row "
+              "merger is proved to resolve a divergent delete only to 'deleted', merge_row_delete) and the recorded conflicts are identical "
+              "(conflicts_equal, for every handler), the conflict counter agrees (stats_conflicts_equal). The rows-and-conflicts part of the "
+              "oracle holds on the model for every input, the whole oracle whenever MaybeShortCircuit applies or the row path counts nothing "
+              "(oracle_on_model_partial). The full statement about statistics is refuted in the faithful model (stats_equal_refuted, "
+              "oracle_on_model_refuted: the fast path never counts Adds/Deletes/Modifications) and on the real code (known finding). Relative to "
+              "C14's range-patch theorem (the real patch streams are validated in C14's check); the row merger is modelled for two nullable int "
+              "cells and identical schemas.")
 LEVEL_NOTE = ("Trusted: Coq kernel, Go harness + Python glue, the SQL engine used to read rows and dolt_conflicts_* back. Which path runs is a function of "
               "the schema (canFastMergeProllyTrees); the harness relies on that reading of merge_prolly_rows.go and the statistics difference itself "
               "confirms that the two groups of tables took different paths.")
-THEOREMS = ["rows_equal", "rows_spec", "conflicts_equal", "stats_conflicts_equal", "stats_equal_partial", "stats_equal_refuted"]
-REFUTED = ["stats_equal_refuted"]
+THEOREMS = ["rows_equal", "rows_spec", "merge_row_delete", "conflicts_equal", "stats_conflicts_equal", "stats_equal_partial", "stats_equal_refuted",
+            "oracle_on_model_partial", "oracle_on_model_refuted"]
+REFUTED = ["stats_equal_refuted", "oracle_on_model_refuted"]
 RULE = ("row histories over pk int, a int NULL, b int NULL built per key from the change patterns (one-sided, convergent, cell-wise mergeable, "
         "same-cell conflict, delete/modify, add/add) incl. NULL cells; non-trivial = the right branch changes at least one row")
 ASSUMPTIONS = ["cells are ints below 998 (row encoding of the model)"]
